@@ -200,6 +200,10 @@ def worker(args):
         mod.run_shard(ctx)
         for k, v in ctx.safety.max_backedges.items():
             ctx.counters["max_backedges:" + k] = max(ctx.counters.get("max_backedges:" + k, 0), v)
+        from vfw import objs as _objs
+
+        if _objs.LIFECYCLE_BUILDS[0]:
+            ctx.counters["trimesh_built_with_late_reorientation"] = _objs.LIFECYCLE_BUILDS[0]
         status = "ok"
         err = None
     except BaseException:  # machinery failure inside the shard
